@@ -104,7 +104,13 @@ TImplSkipped ==
   /\ ts' = Ev.s
   /\ UNCHANGED <<sent, blocks, fin>> /\ Advance
 
-TraceNext == TBlock \/ TVote \/ TCertSent \/ TCertHeld \/ TFinalized \/ TImplSkipped
+\* informational events of the harness's Byzantine players
+TInfo ==
+  /\ IsEvent("ByzBlocks")
+  /\ ts' = Ev.s
+  /\ UNCHANGED <<sent, blocks, fin, skipped>> /\ Advance
+
+TraceNext == TInfo \/ TBlock \/ TVote \/ TCertSent \/ TCertHeld \/ TFinalized \/ TImplSkipped
 
 ---------------------------------------------------------------------------
 (* C01, evaluated after every event for the slot the event touched (all other slots are
